@@ -81,7 +81,7 @@ ASSUMPTIONS = [
     "path-loss entries are strictly positive (10**U(-2,1)) or exactly 1",
 ]
 
-QUICK_BUDGET_S = 90
+QUICK_BUDGET_S = 300
 
 PLAIN_VIEWS = ["H", "big_H", "get_Hkl", "get_Hk", "big_W"]
 EXT_VIEWS = PLAIN_VIEWS + ["big_H_no_ext_int", "H_no_ext_int",
